@@ -43,8 +43,9 @@ import (
 func init() { gnarklogger.Disable() }
 
 type blockRec struct {
-	Dt  int64    `json:"dt"`
-	Txs []string `json:"txs"`
+	Dt   int64    `json:"dt"`
+	Txs  []string `json:"txs"`
+	User int      `json:"user"` // how many of Txs are transactions (the rest was appended by PrepareProposal)
 }
 
 type histFile struct {
@@ -62,6 +63,11 @@ type hdrv struct {
 	lines []string // one digest line per block
 	fails []string // transactions of the builder that did not succeed (builder diagnostics)
 	label []string
+	// replay of recorded (already prepared) blocks: the block bytes are delivered as they are; ppMode says which ProcessProposal
+	// calls this process sees before FinalizeBlock (0 none, 1 the block, 2 a decoy first); userTxs = transactions in the block
+	replaying bool
+	ppMode    int
+	userTxs   int
 }
 
 func factsConfig(gen map[string]string) sim.Config {
@@ -111,8 +117,24 @@ func (d *hdrv) block(dt time.Duration) []*abci.ExecTxResult {
 	txs := d.pend
 	labels := d.label
 	d.pend, d.label = nil, nil
+	nUser := len(txs)
+	proposer := c.Vals[0].Priv.PubKey().Address()
+	// A block goes through the application's proposal phases as on a node.  The history builder (and every driver that is not a
+	// replay) is the proposer: PrepareProposal decides the block's bytes (it may append entries of its own), which are what is
+	// recorded; the replaying processes receive those bytes as the decided block and differ ON PURPOSE in the ProcessProposal
+	// calls they see before FinalizeBlock (none at all: block replay / state sync; the block once; a decoy proposal of another
+	// round first) — what FinalizeBlock computes must not depend on them.
+	if c.Halted == "" && !d.replaying {
+		if pp, err := safePrepare(c, c.Height+1, c.Time.Add(dt), txs, proposer); err == nil {
+			txs = pp
+		} else if err != errUndecodable {
+			c.Halted = err.Error()
+			d.lines = append(d.lines, fmt.Sprintf("h=%d HALT %s", c.Height+1, sha([]byte(err.Error()))))
+			d.fails = append(d.fails, fmt.Sprintf("h=%d halt: %v", c.Height+1, err))
+		}
+	}
 	if d.rec != nil {
-		r := blockRec{Dt: int64(dt)}
+		r := blockRec{Dt: int64(dt), User: nUser}
 		for _, t := range txs {
 			r.Txs = append(r.Txs, base64.StdEncoding.EncodeToString(t))
 		}
@@ -124,6 +146,25 @@ func (d *hdrv) block(dt time.Duration) []*abci.ExecTxResult {
 	}
 	c.Height++
 	c.Time = c.Time.Add(dt)
+	if d.userTxs > 0 || d.replaying {
+		nUser = d.userTxs
+	}
+	mode := 1
+	if d.replaying {
+		mode = d.ppMode
+	}
+	if mode != 0 && c.AllDecode(txs[:min(nUser, len(txs))]) {
+		if mode == 2 { // a proposal of another round, never decided: the user transactions only
+			_, _ = safeProcess(c, c.Height, c.Time, txs[:min(nUser, len(txs))], proposer)
+		}
+		if ok, err := safeProcess(c, c.Height, c.Time, txs, proposer); err != nil || !ok {
+			msg := fmt.Sprintf("ProcessProposal refused the prepared block: accept=%v err=%v", ok, err)
+			c.Halted = msg
+			d.lines = append(d.lines, fmt.Sprintf("h=%d HALT %s", c.Height, sha([]byte(msg))))
+			d.fails = append(d.fails, fmt.Sprintf("h=%d halt: %s", c.Height, msg))
+			return nil
+		}
+	}
 	var votes []abci.VoteInfo
 	for _, v := range c.Vals {
 		votes = append(votes, abci.VoteInfo{Validator: abci.Validator{Address: v.Priv.PubKey().Address(), Power: v.Power}, BlockIdFlag: cmtproto.BlockIDFlagCommit})
@@ -151,13 +192,50 @@ func (d *hdrv) block(dt time.Duration) []*abci.ExecTxResult {
 	var sb strings.Builder
 	fmt.Fprintf(&sb, "h=%d app=%s fb=%s ev=%s vu=%d txs=", c.Height, hex.EncodeToString(c.App.LastCommitID().Hash), hex.EncodeToString(fb.AppHash), eventsDigest(fb.Events), len(fb.ValidatorUpdates))
 	for i, r := range fb.TxResults {
+		if i >= nUser {
+			break // entries appended by PrepareProposal are not transactions
+		}
 		fmt.Fprintf(&sb, "[%d:%s:%s:%d]", r.Code, sha(r.Data), eventsDigest(r.Events), r.GasUsed)
 		if r.Code != 0 && i < len(labels) {
 			d.fails = append(d.fails, fmt.Sprintf("h=%d %s: code %d %s", c.Height, labels[i], r.Code, strings.SplitN(r.Log, "\n", 2)[0]))
 		}
 	}
 	d.lines = append(d.lines, sb.String())
+	if len(fb.TxResults) > nUser {
+		return fb.TxResults[:nUser]
+	}
 	return fb.TxResults
+}
+
+var errUndecodable = fmt.Errorf("a transaction of the block does not decode")
+
+func safePrepare(c *sim.Chain, h int64, t time.Time, txs [][]byte, proposer []byte) (out [][]byte, err error) {
+	if !c.AllDecode(txs) {
+		return nil, errUndecodable
+	}
+	defer func() {
+		if r := recover(); r != nil {
+			err = fmt.Errorf("PrepareProposal panic: %v", r)
+		}
+	}()
+	pp, err := c.App.PrepareProposal(&abci.PrepareProposalRequest{Height: h, Time: t, Txs: txs, MaxTxBytes: 1 << 24, ProposerAddress: proposer})
+	if err != nil {
+		return nil, fmt.Errorf("PrepareProposal failed: %w", err)
+	}
+	return pp.Txs, nil
+}
+
+func safeProcess(c *sim.Chain, h int64, t time.Time, txs [][]byte, proposer []byte) (ok bool, err error) {
+	defer func() {
+		if r := recover(); r != nil {
+			err = fmt.Errorf("ProcessProposal panic: %v", r)
+		}
+	}()
+	pr, err := c.App.ProcessProposal(&abci.ProcessProposalRequest{Height: h, Time: t, Txs: txs, ProposerAddress: proposer, Hash: []byte(fmt.Sprintf("%032d", h))})
+	if err != nil {
+		return false, err
+	}
+	return pr.Status == abci.PROCESS_PROPOSAL_STATUS_ACCEPT, nil
 }
 
 // ---------------------------------------------------------------------------------------------- steps
